@@ -51,6 +51,31 @@ func and(cs ...bool) bool {
 // AmountOK: a stored credit amount: non-negative decimal, at most Precision places.
 func AmountOK(s string) bool { return zz.DecStrOK(s, Precision) }
 
+// W selects the state the reference checks of the row invariants look at: 0 = pre-state
+// (assumptions), 1 = post-state (obligations on written rows).
+var W int
+
+func exists(table string, keys ...interface{}) bool {
+	if W == 0 {
+		return zz.OrmExists0(table, keys...)
+	}
+	return zz.OrmExists1(table, keys...)
+}
+
+func row(table string, dst interface{}, keys ...interface{}) bool {
+	if W == 0 {
+		return zz.OrmRow0(table, dst, keys...)
+	}
+	return zz.OrmRow1(table, dst, keys...)
+}
+
+func lookup(table, index string, dst interface{}, vals ...interface{}) bool {
+	if W == 0 {
+		return zz.OrmLookup0(table, index, dst, vals...)
+	}
+	return zz.OrmLookup1(table, index, dst, vals...)
+}
+
 // Each XOK is the row invariant of table X: the module's own state validator (the real
 // Validate() of the gogo state type, merged into one formula) plus the amount-precision
 // and referential-integrity facts that Validate does not check.
@@ -69,7 +94,7 @@ func ClassOK(r *api.Class) bool {
 		zz.PulsarToGogo(&g, r)
 		return g.Validate() == nil
 	})
-	return and(v, zz.OrmExists0(TCreditType, r.CreditTypeAbbrev))
+	return and(v, exists(TCreditType, r.CreditTypeAbbrev))
 }
 
 func ClassIssuerOK(r *api.ClassIssuer) bool {
@@ -78,7 +103,7 @@ func ClassIssuerOK(r *api.ClassIssuer) bool {
 		zz.PulsarToGogo(&g, r)
 		return g.Validate() == nil
 	})
-	return and(v, zz.OrmExists0(TClass, r.ClassKey))
+	return and(v, exists(TClass, r.ClassKey))
 }
 
 func ProjectOK(r *api.Project) bool {
@@ -87,7 +112,7 @@ func ProjectOK(r *api.Project) bool {
 		zz.PulsarToGogo(&g, r)
 		return g.Validate() == nil
 	})
-	return and(v, zz.OrmExists0(TClass, r.ClassKey))
+	return and(v, exists(TClass, r.ClassKey))
 }
 
 // BatchOK: the batch's project and class exist, the class id embedded in the denom is the
@@ -99,10 +124,10 @@ func BatchOK(r *api.Batch) bool {
 		return g.Validate() == nil
 	})
 	var p api.Project
-	pe := zz.OrmRow0(TProject, &p, r.ProjectKey)
+	pe := row(TProject, &p, r.ProjectKey)
 	var c api.Class
-	ce := zz.OrmRow0(TClass, &c, p.ClassKey)
-	return and(v, pe, ce, zz.StrEq(base.GetClassIDFromBatchDenom(r.Denom), c.Id), zz.OrmExists0(TBatchSupply, r.Key))
+	ce := row(TClass, &c, p.ClassKey)
+	return and(v, pe, ce, zz.StrEq(base.GetClassIDFromBatchDenom(r.Denom), c.Id), exists(TBatchSupply, r.Key))
 }
 
 func BatchBalanceOK(r *api.BatchBalance) bool {
@@ -111,7 +136,7 @@ func BatchBalanceOK(r *api.BatchBalance) bool {
 		zz.PulsarToGogo(&g, r)
 		return g.Validate() == nil
 	})
-	return and(v, AmountOK(r.TradableAmount), AmountOK(r.RetiredAmount), AmountOK(r.EscrowedAmount), zz.OrmExists0(TBatch, r.BatchKey))
+	return and(v, AmountOK(r.TradableAmount), AmountOK(r.RetiredAmount), AmountOK(r.EscrowedAmount), exists(TBatch, r.BatchKey))
 }
 
 func BatchSupplyOK(r *api.BatchSupply) bool {
@@ -120,7 +145,7 @@ func BatchSupplyOK(r *api.BatchSupply) bool {
 		zz.PulsarToGogo(&g, r)
 		return g.Validate() == nil
 	})
-	return and(v, AmountOK(r.TradableAmount), AmountOK(r.RetiredAmount), AmountOK(r.CancelledAmount), zz.OrmExists0(TBatch, r.BatchKey))
+	return and(v, AmountOK(r.TradableAmount), AmountOK(r.RetiredAmount), AmountOK(r.CancelledAmount), exists(TBatch, r.BatchKey))
 }
 
 func BatchContractOK(r *api.BatchContract) bool {
@@ -129,7 +154,12 @@ func BatchContractOK(r *api.BatchContract) bool {
 		zz.PulsarToGogo(&g, r)
 		return g.Validate() == nil
 	})
-	return and(v, zz.OrmExists0(TBatch, r.BatchKey), zz.OrmExists0(TClass, r.ClassKey))
+	// the contract's class is the class of the batch's project
+	var bt api.Batch
+	be := row(TBatch, &bt, r.BatchKey)
+	var p api.Project
+	pe := row(TProject, &p, bt.ProjectKey)
+	return and(v, be, pe, p.ClassKey == r.ClassKey, exists(TClass, r.ClassKey))
 }
 
 func ClassFeeOK(r *api.ClassFee) bool {
@@ -152,12 +182,12 @@ func BasketOK(r *basketapi.Basket) bool {
 	})
 	// Basket.Validate's denom regex uses unescaped dots, so it alone does not imply a valid
 	// bank denom; every denom produced by Create is one (shown on the Create step).
-	return and(v, zz.OrmExists0(TCreditType, r.CreditTypeAbbrev), zz.ValidSdkDenom(r.BasketDenom))
+	return and(v, exists(TCreditType, r.CreditTypeAbbrev), zz.ValidSdkDenom(r.BasketDenom))
 }
 
 func BasketClassOK(r *basketapi.BasketClass) bool {
 	var c api.Class
-	return and(zz.OrmExists0(TBasket, r.BasketId), zz.OrmLookup0(TClass, "Id", &c, r.ClassId))
+	return and(exists(TBasket, r.BasketId), lookup(TClass, "Id", &c, r.ClassId))
 }
 
 func BasketBalanceOK(r *basketapi.BasketBalance) bool {
@@ -167,8 +197,8 @@ func BasketBalanceOK(r *basketapi.BasketBalance) bool {
 		return g.Validate() == nil
 	})
 	var b api.Batch
-	be := zz.OrmLookup0(TBatch, "Denom", &b, r.BatchDenom)
-	return and(v, AmountOK(r.Balance), zz.OrmExists0(TBasket, r.BasketId), be)
+	be := lookup(TBatch, "Denom", &b, r.BatchDenom)
+	return and(v, AmountOK(r.Balance), exists(TBasket, r.BasketId), be)
 }
 
 func BasketFeeOK(r *basketapi.BasketFee) bool {
@@ -186,7 +216,7 @@ func SellOrderOK(r *marketapi.SellOrder) bool {
 		return g.Validate() == nil
 	})
 	return and(v, AmountOK(r.Quantity), zz.QLt(zz.QInt(0), zz.QParse(r.Quantity)),
-		zz.OrmExists0(TBatch, r.BatchKey), zz.OrmExists0(TMarket, r.MarketId))
+		exists(TBatch, r.BatchKey), exists(TMarket, r.MarketId))
 }
 
 func MarketOK(r *marketapi.Market) bool {
@@ -249,6 +279,7 @@ func Install() {
 	zz.OrmOnTouch(TBatchBalance, AssumeSums)
 	zz.OrmOnTouch(TBatchSupply, AssumeSums)
 	zz.OrmOnTouch(TBasketBalance, AssumeSums)
+	zz.OrmOnTouch(TSellOrder, AssumeSums)
 }
 
 // AssumeSums instantiates the sum invariants on the rows the step has touched: for every
@@ -270,17 +301,25 @@ func AssumeSums() {
 		})
 		return zz.And(zz.QLe(zz.QAdd(held, inBaskets), zz.QParse(s.TradableAmount)), zz.QLe(retired, zz.QParse(s.RetiredAmount)))
 	}))
+	// escrow covers the open sell orders of the same seller and batch
+	zz.Assume(zz.AllTouched0(TBatchBalance, func(b *api.BatchBalance) bool {
+		orders := zz.SumTouched0(TSellOrder, func(o *marketapi.SellOrder) zz.Q {
+			return zz.QIf(zz.And(zz.BytesEq(o.Seller, b.Address), o.BatchKey == b.BatchKey), zz.QParse(o.Quantity), q0())
+		})
+		return zz.QLe(orders, zz.QParse(b.EscrowedAmount))
+	}))
 }
 
 // Skolems are the arbitrary batch / account / bank denom the step obligations talk about.
 type Skolems struct {
-	Batch uint64
-	Acct  []byte
-	Denom string
+	Batch  uint64
+	Acct   []byte
+	Denom  string
+	Basket uint64
 }
 
 func PickSkolems() Skolems {
-	return Skolems{Batch: zz.NondetU64("batch*"), Acct: zz.NondetBytesAtom("acct*"), Denom: zz.NondetAtom("denom*")}
+	return Skolems{Batch: zz.NondetU64("batch*"), Acct: zz.NondetBytesAtom("acct*"), Denom: zz.NondetAtom("denom*"), Basket: zz.NondetU64("basket*")}
 }
 
 // ---- per-step deltas for a skolem batch
@@ -399,6 +438,8 @@ type Step struct {
 	Sk        Skolems
 	Err       error
 	Panicked  bool
+	// SkipC05: the hook asserts its own version of C05 (fee burning handlers)
+	SkipC05 bool
 	// SkipC03: the handler-specific hook asserts its own version of C03 (BuyDirect)
 	SkipC03 bool
 }
@@ -428,6 +469,8 @@ func RunStep(authority []byte, req sdk.Msg, call func(ctx context.Context) error
 	zz.Assume(req.ValidateBasic() == nil)
 	s := &Step{Authority: authority, Sk: PickSkolems()}
 	s.Signer = req.GetSigners()[0]
+	// no user can sign for a module account
+	zz.Assume(zz.Not(zz.IsModuleAccount(s.Signer)))
 	zz.OrmBegin()
 	s.Err, s.Panicked = callRecovering(call)
 	zz.OrmRollbackIf(s.Err != nil)
@@ -441,6 +484,13 @@ func RunStep(authority []byte, req sdk.Msg, call func(ctx context.Context) error
 	if hook != nil {
 		hook(s)
 	}
+	if !s.SkipC05 {
+		CheckC05(s.Sk.Basket)
+	}
+	CheckC06(s.Sk.Acct, s.Sk.Batch)
+	CheckC09()
+	CheckRefs()
+	CheckSealed()
 	if s.Err == nil {
 		zz.Reach("handler succeeds")
 	} else if s.Panicked {
